@@ -106,9 +106,9 @@ theorem modeChar_noarg (cfg : Cfg) (cn : Conn) (target : Str) (chum : ChanUserMo
     (l ∈ rankLetters → a'.x.w = a.x.w.panic "mode: rank letter without argument") ∧
     (l ∉ rankLetters → a'.x.w = a.x.w) := by
   simp only [Spec.takesArg, List.mem_cons, List.not_mem_nil, or_false] at hl
-  rcases hl with rfl | rfl | rfl | rfl | rfl | rfl | rfl | rfl
+  by_cases hm : mayChange chum l = true
   all_goals
-    by_cases hm : mayChange chum _ = true
+    rcases hl with rfl | rfl | rfl | rfl | rfl | rfl | rfl | rfl
     all_goals simp [modeChar, hargs, rankLetters, hm]
   all_goals
     refine ⟨(foldl_reply_frame cfg _ _ a.x).1, (foldl_reply_frame cfg _ _ a.x).2.1⟩
@@ -168,3 +168,317 @@ theorem setRank_isSome_iff (C : Channel) (l : Char) (n : Str) (on : Bool) :
     (C.setRank l n on).isSome = Map.contains n C.users := by
   unfold Channel.setRank Map.contains
   cases Map.lookup n C.users <;> rfl
+
+/-! ## 4. accepted flags, key, limit and mask lists -/
+
+namespace Spec
+/-- the five Boolean channel flags -/
+def flagLetters : List Char := ['i', 'm', 't', 'n', 's']
+
+/-- "the Boolean named by `l` becomes `b`, everything else stays" -/
+def withFlag (m : ChannelModes) (l : Char) (b : Bool) : ChannelModes :=
+  if l = 'i' then { m with inviteOnly := b }
+  else if l = 'm' then { m with moderated := b }
+  else if l = 't' then { m with protectedTopic := b }
+  else if l = 'n' then { m with noExternalMessages := b }
+  else if l = 's' then { m with secret := b }
+  else m
+end Spec
+
+/-- sufficient rank for every letter of the half-operator class -/
+theorem halfop_of_required (chum : ChanUserModes) (l : Char)
+    (hl : l ∈ ['v', 'b', 'e', 'I', 'k', 'l', 'i', 'm', 't', 'n', 's']) :
+    Spec.required l chum = chum.isHalfOperator := by
+  simp only [List.mem_cons, List.not_mem_nil, or_false] at hl
+  rcases hl with rfl | rfl | rfl | rfl | rfl | rfl | rfl | rfl | rfl | rfl | rfl
+  all_goals simp [Spec.required, ChanUserModes.isHalfOperator]
+
+/-- `±i ±m ±t ±n ±s` with sufficient rank: exactly that Boolean becomes the current sign, the
+    letter is appended to the `+` or `-` part of the announcement, nothing is written. -/
+theorem modeChar_flag_spec (cfg : Cfg) (cn : Conn) (target : Str) (chum : ChanUserModes)
+    (a : ModeAcc) (l : Char) (hl : l ∈ Spec.flagLetters) (hreq : Spec.required l chum = true) :
+    let a' := modeChar cfg cn target chum a l
+    a'.ch = { a.ch with modes := Spec.withFlag a.ch.modes l a.modeSet } ∧
+    a'.setStr = (if a.modeSet then a.setStr ++ [l] else a.setStr) ∧
+    a'.unsetStr = (if a.modeSet then a.unsetStr else a.unsetStr ++ [l]) ∧
+    a'.paramsStr = a.paramsStr ∧ a'.x = a.x ∧ a'.args = a.args ∧ a'.modeSet = a.modeSet := by
+  simp only [Spec.flagLetters, List.mem_cons, List.not_mem_nil, or_false] at hl
+  have hH : chum.isHalfOperator = true := by
+    rw [← halfop_of_required chum l (by rcases hl with rfl | rfl | rfl | rfl | rfl <;> simp)]; exact hreq
+  rcases hl with rfl | rfl | rfl | rfl | rfl
+  all_goals
+    cases hs : a.modeSet
+    all_goals simp [modeChar, mayChange, hH, Spec.withFlag, hs]
+
+/-- `+k arg` sets the key to `arg`, `-k` clears it (without taking an argument). -/
+theorem modeChar_key_spec (cfg : Cfg) (cn : Conn) (target : Str) (chum : ChanUserModes)
+    (a : ModeAcc) (hreq : Spec.required 'k' chum = true) :
+    let a' := modeChar cfg cn target chum a 'k'
+    (a.modeSet = true → ∀ arg rest, a.args = arg :: rest →
+      a'.ch = { a.ch with modes := { a.ch.modes with key := some arg } } ∧
+      a'.paramsStr = a.paramsStr ++ str " +k " ++ arg ∧ a'.args = rest ∧
+      a'.unsetStr = a.unsetStr) ∧
+    (a.modeSet = false →
+      a'.ch = { a.ch with modes := { a.ch.modes with key := none } } ∧
+      a'.unsetStr = a.unsetStr ++ ['k'] ∧ a'.paramsStr = a.paramsStr ∧ a'.args = a.args) ∧
+    (a.modeSet = true → a.args = [] → a'.ch = a.ch ∧ a'.paramsStr = a.paramsStr ∧
+      a'.unsetStr = a.unsetStr ∧ a'.x.w = a.x.w.panic "mode: +k without argument") ∧
+    (a.modeSet = false ∨ a.args ≠ [] → a'.x = a.x) ∧ a'.x.queued = a.x.queued ∧
+    a'.x.direct = a.x.direct ∧ a'.setStr = a.setStr ∧ a'.modeSet = a.modeSet := by
+  have hH : chum.isHalfOperator = true := by
+    rw [← halfop_of_required chum 'k' (by simp)]; exact hreq
+  cases hs : a.modeSet
+  · simp [modeChar, mayChange, hH, hs]
+  · cases hargs : a.args <;> simp [modeChar, mayChange, hH, hs, hargs]
+
+/-- `+l n` sets the limit to the parsed number, `-l` clears it (without taking an argument). -/
+theorem modeChar_limit_spec (cfg : Cfg) (cn : Conn) (target : Str) (chum : ChanUserModes)
+    (a : ModeAcc) (hreq : Spec.required 'l' chum = true) :
+    let a' := modeChar cfg cn target chum a 'l'
+    (a.modeSet = true → ∀ arg rest n, a.args = arg :: rest → parseUnsigned usizeMax arg = .ok n →
+      a'.ch = { a.ch with modes := { a.ch.modes with clientLimit := some n } } ∧
+      a'.paramsStr = a.paramsStr ++ str " +l " ++ arg ∧ a'.args = rest ∧
+      a'.unsetStr = a.unsetStr ∧ a'.x = a.x) ∧
+    (a.modeSet = false →
+      a'.ch = { a.ch with modes := { a.ch.modes with clientLimit := none } } ∧
+      a'.unsetStr = a.unsetStr ++ ['l'] ∧ a'.paramsStr = a.paramsStr ∧ a'.args = a.args ∧ a'.x = a.x) ∧
+    (a.modeSet = true → (a.args = [] ∨ ∃ arg rest e, a.args = arg :: rest ∧ parseUnsigned usizeMax arg = .error e) →
+      a'.ch = a.ch ∧ a'.paramsStr = a.paramsStr ∧ a'.unsetStr = a.unsetStr ∧ a'.x.w.panicked.isSome = true) ∧
+    a'.x.queued = a.x.queued ∧ a'.x.direct = a.x.direct ∧ a'.setStr = a.setStr ∧ a'.modeSet = a.modeSet := by
+  have hH : chum.isHalfOperator = true := by
+    rw [← halfop_of_required chum 'l' (by simp)]; exact hreq
+  cases hs : a.modeSet
+  · simp [modeChar, mayChange, hH, hs]
+  · cases hargs : a.args with
+    | nil => simp [modeChar, mayChange, hH, hs, hargs, World.panic]
+    | cons arg rest =>
+      cases hp : parseUnsigned usizeMax arg with
+      | error e =>
+        simp [modeChar, mayChange, hH, hs, hargs, hp, World.panic]
+        intro arg' rest' n h1 h2 h3; subst h1; rw [hp] at h3; cases h3
+      | ok n0 =>
+        simp [modeChar, mayChange, hH, hs, hargs, hp]
+        intro arg' rest' n h1 h2 h3; subst h1; rw [hp] at h3; cases h3; exact ⟨rfl, rfl, h2⟩
+
+/-- `±b mask`, `±e mask`, `±I mask` with sufficient rank: the completed mask
+    (`normalizeSourcemask`, property C14) is inserted into / erased from the list (for `b` also the
+    "who set it" table), `" ±b mask"` is appended to the announced parameters, nothing is written. -/
+theorem modeChar_mask_spec (cfg : Cfg) (cn : Conn) (target : Str) (chum : ChanUserModes)
+    (a : ModeAcc) (l : Char) (hl : l ∈ ['b', 'e', 'I']) (hreq : Spec.required l chum = true)
+    (mask : Str) (rest : List Str) (hargs : a.args = mask :: rest) :
+    let a' := modeChar cfg cn target chum a l
+    let norm := normalizeSourcemask mask
+    let upd (s : KSet) : KSet := if a.modeSet then KSet.insert norm s else KSet.erase norm s
+    (l = 'b' → a'.ch = { a.ch with
+        modes := { a.ch.modes with ban := upd a.ch.modes.ban }
+        banInfo := if a.modeSet then Map.insert norm (cn.nick.getD []) a.ch.banInfo
+                   else Map.erase norm a.ch.banInfo }) ∧
+    (l = 'e' → a'.ch = { a.ch with modes := { a.ch.modes with exception := upd a.ch.modes.exception } }) ∧
+    (l = 'I' → a'.ch = { a.ch with modes := { a.ch.modes with inviteException := upd a.ch.modes.inviteException } }) ∧
+    a'.paramsStr = a.paramsStr ++ (if a.modeSet then str " +" else str " -") ++ [l, ' '] ++ norm ∧
+    a'.args = rest ∧ a'.x = a.x ∧ a'.setStr = a.setStr ∧ a'.unsetStr = a.unsetStr ∧
+    a'.modeSet = a.modeSet := by
+  simp only [List.mem_cons, List.not_mem_nil, or_false] at hl
+  have hH : chum.isHalfOperator = true := by
+    rw [← halfop_of_required chum l (by rcases hl with rfl | rfl | rfl <;> simp)]; exact hreq
+  rcases hl with rfl | rfl | rfl
+  all_goals
+    cases hs : a.modeSet
+    all_goals simp [modeChar, hH, hs, hargs, str]
+
+/-! ## 5. outsiders -/
+
+/-- MODE on an existing channel by a non-member: exactly one 442, nothing else happens.
+    MODE on an unknown channel: exactly one 403, nothing else happens. -/
+theorem mode_outsider (cfg : Cfg) (c : Nat) (target : Str) (modes : List (Str × List Str)) (x : Ctx)
+    (nick : Str) (hnick : (x.conn c).nick = some nick) (hchan : validateChannel target = true) :
+    let x' := processMode cfg c target modes x
+    (∀ ch, Map.lookup target x.w.channels = some ch → Map.lookup nick ch.users = none →
+      x'.w = x.w ∧ x'.queued = x.queued ∧
+      x'.direct = x.direct ++ [srvLine cfg (ErrNotOnChannel442 (x.conn c).clientName target)]) ∧
+    (Map.lookup target x.w.channels = none →
+      x'.w = x.w ∧ x'.queued = x.queued ∧
+      x'.direct = x.direct ++ [srvLine cfg (ErrNoSuchChannel403 (x.conn c).clientName target)]) := by
+  refine ⟨fun ch hch hm => ?_, fun hch => ?_⟩
+  · simp [processMode, hnick, hchan, hch, hm, srvLine, str]
+  · simp [processMode, hnick, hchan, hch, srvLine, str]
+
+/-! ## 6. the whole command of a member: announcement and frame -/
+
+/-- the accumulator after the MODE loop (all groups, all letters) -/
+def modeRun (cfg : Cfg) (cn : Conn) (target : Str) (chum : ChanUserModes) (x : Ctx) (ch : Channel)
+    (modes : List (Str × List Str)) : ModeAcc :=
+  modes.foldl (modeGroup cfg cn target chum) { x := x, ch := ch, args := [] }
+
+/-- `processMode` by a member is `processModeChannel` with the member's rank at the start of the
+    command. -/
+theorem mode_member (cfg : Cfg) (c : Nat) (target : Str) (modes : List (Str × List Str)) (x : Ctx)
+    (nick : Str) (hnick : (x.conn c).nick = some nick) (hchan : validateChannel target = true)
+    (ch : Channel) (hch : Map.lookup target x.w.channels = some ch)
+    (chum : ChanUserModes) (hm : Map.lookup nick ch.users = some chum) :
+    processMode cfg c target modes x = processModeChannel cfg c target ch modes chum x := by
+  simp [processMode, hnick, hchan, hch, hm]
+
+/-- The result of the loop, `a`, is stored as `channels[target]`; nothing else of the world
+    changes (users, other channels, counters, connections); if the three accumulators yield an
+    announcement `line`, then `":source line"` is queued to every member of the updated channel,
+    once each, in member order, and nothing else is queued; if they yield none, nothing is queued.
+    The loop never changes the set of members, the topic, the default ranks or the preconfigured
+    flag. -/
+theorem mode_announced_to_all_members (cfg : Cfg) (c : Nat) (target : Str) (ch : Channel)
+    (modes : List (Str × List Str)) (chum : ChanUserModes) (x : Ctx) (hne : modes ≠ [])
+    (hmem : ∀ n, Map.contains n ch.users = true → Map.contains n x.w.users = true) :
+    let cn := x.conn c
+    let a := modeRun cfg cn target chum x ch modes
+    let x' := processModeChannel cfg c target ch modes chum x
+    x'.w = { x.w with channels := Map.insert target a.ch x.w.channels, panicked := a.x.w.panicked } ∧
+    x'.direct = a.x.direct ∧
+    (∀ line, modeAnnouncement target a.setStr a.unsetStr a.paramsStr = some line →
+      x'.queued = x.queued ++
+        (Map.keys a.ch.users).map (fun n => (ownerOf x.w n, str ":" ++ cn.source ++ str " " ++ line))) ∧
+    (modeAnnouncement target a.setStr a.unsetStr a.paramsStr = none → x'.queued = x.queued) ∧
+    Map.keys a.ch.users = Map.keys ch.users ∧ a.ch.topic = ch.topic ∧
+    a.ch.defaultModes = ch.defaultModes ∧ a.ch.preconfigured = ch.preconfigured ∧
+    ((Map.keys ch.users).Nodup → ∀ n ∈ Map.keys a.ch.users, (Map.keys a.ch.users).count n = 1) := by
+  intro cn a x'
+  obtain ⟨h1, h2, h3⟩ := processModeChannel_nonempty cfg c target ch modes chum x hne hmem
+  have hfr : ModeFrame { x := x, ch := ch, args := [] } a := modeRun_frame cfg cn target chum _ modes
+  refine ⟨h1, h2, ?_, ?_, hfr.keys, hfr.topic, hfr.defaultModes, hfr.preconfigured, ?_⟩
+  · intro line hl
+    rw [h3]
+    show _ ++ (match modeAnnouncement target a.setStr a.unsetStr a.paramsStr with
+      | some line => _ | none => _) = _
+    rw [hl]; simp [str]; rfl
+  · intro hl
+    rw [h3]
+    show _ ++ (match modeAnnouncement target a.setStr a.unsetStr a.paramsStr with
+      | some line => _ | none => _) = _
+    rw [hl]; simp
+  · intro hnd n hn
+    have hk : Map.keys a.ch.users = Map.keys ch.users := hfr.keys
+    rw [hk] at hn ⊢
+    have h1 := List.nodup_iff_count.mp hnd n
+    have h2 := List.count_pos_iff.mpr hn
+    omega
+
+/-- what is announced: nothing iff no accepted change was recorded; otherwise
+    `MODE target [+set][-unset][ params]`. -/
+theorem modeAnnouncement_none_iff (target setStr unsetStr paramsStr : Str) :
+    modeAnnouncement target setStr unsetStr paramsStr = none ↔
+      setStr = [] ∧ unsetStr = [] ∧ paramsStr = [] := by
+  unfold modeAnnouncement
+  cases setStr <;> cases unsetStr <;> cases paramsStr <;> simp
+
+/-- A member below half-operator cannot change anything with a whole MODE command, whatever the
+    mode string: `channels[target]` is rewritten with the same value, nothing is announced. -/
+theorem mode_lowrank_changes_nothing (cfg : Cfg) (c : Nat) (target : Str) (ch : Channel)
+    (modes : List (Str × List Str)) (chum : ChanUserModes) (x : Ctx)
+    (hlow : chum.isHalfOperator = false) (hch : Map.lookup target x.w.channels = some ch) :
+    let x' := processModeChannel cfg c target ch modes chum x
+    x'.w.channels = x.w.channels ∧ x'.w.users = x.w.users ∧ x'.queued = x.queued := by
+  intro x'
+  by_cases hne : modes = []
+  · subst hne; simp [x', processModeChannel]
+  · have hs := modeRun_lowrank cfg (x.conn c) target chum { x := x, ch := ch, args := [] } modes hlow
+    have hfr := modeRun_frame cfg (x.conn c) target chum { x := x, ch := ch, args := [] } modes
+    obtain ⟨hq, ⟨p, hw⟩, -, -, -, -, -⟩ := hfr
+    have hemp : modes.isEmpty = false := by cases modes <;> simp_all
+    have hann : modeAnnouncement target
+        (modes.foldl (modeGroup cfg (x.conn c) target chum) { x := x, ch := ch, args := [] }).setStr
+        (modes.foldl (modeGroup cfg (x.conn c) target chum) { x := x, ch := ch, args := [] }).unsetStr
+        (modes.foldl (modeGroup cfg (x.conn c) target chum) { x := x, ch := ch, args := [] }).paramsStr = none := by
+      rw [hs.setStr, hs.unsetStr, hs.paramsStr]; rfl
+    show (processModeChannel cfg c target ch modes chum x).w.channels = _ ∧
+      (processModeChannel cfg c target ch modes chum x).w.users = _ ∧
+      (processModeChannel cfg c target ch modes chum x).queued = _
+    unfold processModeChannel
+    simp only [hemp, Bool.false_eq_true, ↓reduceIte, hann, Ctx.modifyW_w, Ctx.modifyW_queued, hs.ch, hw, hq]
+    exact ⟨Map.insert_lookup_self _ _ _ hch, trivial, trivial⟩
+
+/-! ## 7. the query form shows the stored modes -/
+
+/-- `MODE #chan` (no mode string) by a member: 324 with the rendered modes of the channel as it
+    is stored, then 329; nothing changes. -/
+theorem mode_query_shows (cfg : Cfg) (c : Nat) (target : Str) (ch : Channel) (chum : ChanUserModes)
+    (x : Ctx) :
+    let x' := processModeChannel cfg c target ch [] chum x
+    x'.w = x.w ∧ x'.queued = x.queued ∧
+    x'.direct = x.direct ++
+      [srvLine cfg (RplChannelModeIs324 (x.conn c).clientName target ch.modes.render),
+       srvLine cfg (RplCreationTime329 (x.conn c).clientName target 0)] := by
+  simp [processModeChannel, srvLine, str]
+
+/-! ## 8. examples on a concrete channel
+    `#c` = alice (founder, operator), hank (half-operator), vic (voice), pat (plain); `out` is not a
+    member.  Connection ids 1..5 in that order. -/
+
+namespace Ex
+open PrivEx
+
+-- half-operator hank sets +m: applied, announced once to each of the four members
+example : (processMode cfg 2 (str "#c") [(str "+m", [])] x0).queued =
+    [(1, str ":hank!~hank@h MODE #c +m"), (2, str ":hank!~hank@h MODE #c +m"),
+     (3, str ":hank!~hank@h MODE #c +m"), (4, str ":hank!~hank@h MODE #c +m")] := by decide
+example : (chanAfter (processMode cfg 2 (str "#c") [(str "+m", [])] x0)).map (·.modes.moderated) =
+    some true := by decide
+-- ... and a later query shows it
+example : (processMode cfg 4 (str "#c") []
+      { w := (processMode cfg 2 (str "#c") [(str "+m", [])] x0).w }).direct =
+    [str ":irc.irc 324 pat #c +m +q alice +o alice +h hank +v vic", str ":irc.irc 329 pat #c 0"] := by
+  decide
+
+-- half-operator hank may give voice, but not operator, half-operator, protected or founder status
+example : rankAfter (processMode cfg 2 (str "#c") [(str "+v", [str "pat"])] x0) "pat" = some (str "v") := by
+  decide
+example : let x := processMode cfg 2 (str "#c") [(str "+o", [str "pat"])] x0
+    chanAfter x = some chan ∧ x.queued = [] ∧
+    x.direct = [str ":irc.irc 482 hank #c :You're not channel operator"] := by decide
+example : let x := processMode cfg 2 (str "#c") [(str "+hqa", [str "pat", str "pat", str "pat"])] x0
+    chanAfter x = some chan ∧ x.queued = [] ∧
+    x.direct = [str ":irc.irc 482 hank #c :You're not channel operator",
+                str ":irc.irc 482 hank #c :You're not channel operator",
+                str ":irc.irc 482 hank #c :You're not channel operator"] := by decide
+
+-- the founder may do all of it; rank lists and member flags move together
+example : let x := processMode cfg 1 (str "#c") [(str "+oa-h", [str "hank", str "hank", str "hank"])] x0
+    rankAfter x "hank" = some (str "ao") ∧
+    (chanAfter x).map (fun C => (C.modes.operators, C.modes.protecteds, C.modes.halfOperators)) =
+      some ([str "alice", str "hank"], [str "hank"], []) ∧
+    x.queued.map (·.2) = List.replicate 4 (str ":alice!~alice@h MODE #c +o hank +a hank -h hank") ∧
+    (chanAfter x).map rankMirrorCheck = some true := by decide
+
+-- voice and plain members change nothing and get 482; nothing is announced
+example : let x := processMode cfg 3 (str "#c") [(str "+mk-n+l", [str "key", str "5"])] x0
+    chanAfter x = some chan ∧ x.queued = [] ∧ x.direct.length = 4 ∧
+    x.direct.all (· == str ":irc.irc 482 vic #c :You're not channel operator") = true := by decide
+example : let x := processMode cfg 4 (str "#c") [(str "+b", [str "bad"])] x0
+    chanAfter x = some chan ∧ x.queued = [] ∧
+    x.direct = [str ":irc.irc 482 pat #c :You're not channel operator"] := by decide
+
+-- an outsider gets 442, an unknown channel 403
+example : let x := processMode cfg 5 (str "#c") [(str "+m", [])] x0
+    chanAfter x = some chan ∧ x.queued = [] ∧
+    x.direct = [str ":irc.irc 442 out #c :You're not on that channel"] := by decide
+example : (processMode cfg 5 (str "#d") [(str "+m", [])] x0).direct =
+    [str ":irc.irc 403 out #d :No such channel"] := by decide
+
+-- key, limit, ban by the half-operator; the mask is completed
+example : let x := processMode cfg 2 (str "#c") [(str "+klb", [str "sesame", str "10", str "bad"])] x0
+    (chanAfter x).map (·.modes.key) = some (some (str "sesame")) ∧
+    (chanAfter x).map (·.modes.clientLimit) = some (some 10) ∧
+    (chanAfter x).map (·.modes.ban) = some [str "bad!*@*"] ∧
+    (chanAfter x).map (·.banInfo) = some [(str "bad!*@*", str "hank")] ∧
+    x.queued.map (·.2) = List.replicate 4 (str ":hank!~hank@h MODE #c +k sesame +l 10 +b bad!*@*") := by
+  decide
+
+-- the hypotheses of the theorems above are satisfiable on this world
+example : Spec.required 'o' { halfOper := true } = false ∧ 'o' ∈ Spec.letters := by decide
+example : Spec.required 'v' { halfOper := true } = true ∧ 'v' ∈ rankLetters := by decide
+example : (x0.conn 5).nick = some (str "out") ∧ validateChannel (str "#c") = true ∧
+    Map.lookup (str "#c") x0.w.channels = some chan ∧ Map.lookup (str "out") chan.users = none := by decide
+example : ∀ n ∈ Map.keys chan.users, Map.contains n x0.w.users = true := by decide
+example : (chan.setRank 'o' (str "pat") true).isSome = true ∧ rankMirrorCheck chan = true := by decide
+
+end Ex
+
+end Irc.C08
